@@ -47,6 +47,11 @@ IRRELEVANT = r"as std::fmt::(Display|Debug)>::fmt$|internal::dot::(nfa_render|mu
 # position of a loop (a block of a loop that every trip through the loop passes).  `let mut it = v.iter(); it.next(); for x in it`
 # skips an element without any adaptor (second systematic probe, LM_MODE=preconsume: 80 of 86 such mutants went unnoticed).
 ADV_RX = r"iter::Iterator>::(next|nth|advance_by|next_chunk)$|DoubleEndedIterator>::(next_back|nth_back|advance_back_by)$|Peekable<.*>::(next_if|next_if_eq)"
+# an element taken by hand and *used* (first + rest forms), with the rule that checks what is done with it:
+ADV_UNDERSTOOD = [
+    (r"Minimizer::merge_transitions$", "next", "C03.f: representative = next(), the rest of the same iterator are the members merged into it (next+rest form)"),
+    (r"internal::nfa::Nfa::try_from_ast$", "next", "C02.c: first alternative taken with next(), the others from the same iterator — the denotation after each step is compared with the alternatives seen"),
+]
 ADV_BASELINE = [
     (r"FindMatchesImpl::<..>::set_offset$", "next_back", "C09.a (see above)"),
     (r"FindMatchesImpl::<..>::peek_n$", "next", "C11.b/d: the private cursor of the peek skips one char after a failed attempt (inside the loop, on the no-match branch)"),
@@ -114,11 +119,42 @@ def analyze(ctx, rules):
                     if dd and dd["kind"] == "assign" and dd["stmt"]["rv"]["k"] == "discr" and dd["stmt"]["rv"]["p"]["l"] == t["dest"]["l"]:
                         exits_on = {tb for _, tb in tt["targets"]} | {tt["otherwise"]}
                 break
+            if not exits_on and t.get("target") is not None:
+                # `while it.next().is_some()` / `.is_none()`: the answer is tested through the predicate
+                t2 = fn.term(t["target"])
+                if t2["k"] == "call" and re.search(r"Option::<.*>::(is_some|is_none)$", M.call_name(t2)) and t2.get("target") is not None:
+                    cur2 = t2["target"]
+                    n2 = 0
+                    while cur2 is not None and n2 < 6:
+                        n2 += 1
+                        t3 = fn.term(cur2)
+                        if t3["k"] == "goto":
+                            cur2 = t3["target"]
+                            continue
+                        if t3["k"] == "switch":
+                            exits_on = {tb for _, tb in t3["targets"]} | {t3["otherwise"]}
+                        break
             for h, body in loops.items():
                 if bb in body and all(fn.dominates(bb, a) for a, b in backs if b == h) and any(x not in body for x in exits_on):
                     driver = True
             if driver:
                 continue
+            # is the element that was taken used at all?  (`it.next();` / `let _ = it.next();` / `if it.next().is_some() {}` throw it away)
+            dl = t["dest"]["l"]
+            used = False
+            for b2 in fn.reachable():
+                for st in fn.blocks[b2]["stmts"]:
+                    if st["k"] != "assign":
+                        continue
+                    for pl in M.rvalue_places(st["rv"]):
+                        if pl["l"] == dl and any(e_["k"] in ("downcast", "field") for e_ in pl["pj"]):
+                            used = True
+                t4 = fn.term(b2)
+                if t4["k"] == "call" and b2 != bb:
+                    for a_ in t4["args"]:
+                        if a_.get("k") in ("copy", "move") and a_["p"]["l"] == dl and not re.search(r"Option::<.*>::(is_some|is_none)$|mem::drop", M.call_name(t4)):
+                            used = True
+            kind = kind if used else kind + " (result discarded)"
             # advancing a *copy* of an iterator does not take anything away from the original
             if pv is None:
                 pv = M.Prov(fn)
@@ -135,7 +171,7 @@ def analyze(ctx, rules):
         for (oname, kind), locs in sorted(adv.items()):
             if not re.search(area, oname) or re.search(IRRELEVANT, oname):
                 continue
-            base = [w for rx, k, w in ADV_BASELINE if k == kind and re.search(rx, oname)]
+            base = [w for rx, k, w in ADV_BASELINE + ADV_UNDERSTOOD if k == kind and re.search(rx, oname)]
             ctx.ob(rule, "advance:%s:%s" % (M.short_name(oname), kind), bool(base),
                    ("%s calls %s() outside the driving position of a loop: %s" % (M.short_name(oname), kind, base[0])) if base else
                    "%s advances an iterator by hand (%s() at %s, not the call that drives a loop): elements are taken from a walk that must visit all of them, and no rule analyses this use" % (M.short_name(oname), kind, ", ".join(locs)), locs[0])
